@@ -76,8 +76,8 @@ CRASH_PROFILES = {
                 expand_next=(4, 30), depth=(2, 3), bin_jobs=(2, 10)),
     "C02": dict(consts=dict(MaxIdx=6, Starts={1}, MaxBatch=2, Sizes={1, 2}, MaxOps=3, Keys={1}, Vals={0, 2},
                             WithBad=False, WithReopen=False, WithStable=False, MinOps=3),
-                n=(5, 30), geoms=((512,), (128, 512)), per_run=((200, 120, 60), (2000, 400, 200)),
-                expand_next=(10, 60), depth=(3, 3), bin_jobs=(1, 6), chain=True),
+                n=(5, 30), geoms=((512,), (128, 512)), per_run=((200, 120, 40), (2000, 400, 200)),
+                expand_next=(6, 40), depth=(3, 3), bin_jobs=(1, 6), chain=True),
     "C03": dict(consts=dict(MaxIdx=7, Starts={1, 4}, MaxBatch=2, Sizes={1, 2}, MaxOps=4, Keys={1}, Vals={0, 2},
                             WithBad=False, WithReopen=True, WithStable=False, MinOps=4),
                 n=(6, 40), geoms=((64, 96), (64, 96, 128)), per_run=((300, 40), (3000, 200)),
